@@ -211,6 +211,16 @@ var knownKinds = map[string]bool{}
 
 // Result draws one vegeta.Result; every field of the struct is enumerated by
 // reflection so that a field added later is either generated or reported.
+// methodSpellings are request methods as users write them: the standard ones,
+// their lower and mixed case variants (a method is case sensitive, so "get" is
+// not "GET"), and near misses.
+var methodSpellings = []string{
+	"GET", "POST", "PUT", "HEAD", "DELETE", "PATCH", "OPTIONS", "CONNECT", "TRACE",
+	"get", "post", "put", "head", "delete", "patch", "options", "connect", "trace",
+	"Get", "Post", "pUT", "Head", "dELETE", "pAtCh", "Options", "GEt", "posT",
+	"QUERY", "query", "PROPFIND", "M-SEARCH", "GET ", " GET", "GETS", "GE",
+}
+
 func Result(t *rapid.T, label string, o ResultOpts) vegeta.Result {
 	var r vegeta.Result
 	rv := reflect.ValueOf(&r).Elem()
@@ -224,7 +234,11 @@ func Result(t *rapid.T, label string, o ResultOpts) vegeta.Result {
 		fv := rv.Field(i)
 		switch v := fv.Addr().Interface().(type) {
 		case *string:
-			*v = Text(t, l)
+			if f.Name == "Method" && rapid.IntRange(0, 2).Draw(t, l+".std") == 0 {
+				*v = rapid.SampledFrom(methodSpellings).Draw(t, l)
+			} else {
+				*v = Text(t, l)
+			}
 		case *uint64:
 			*v = Uint64(t, l)
 		case *uint16:
